@@ -141,6 +141,10 @@ class ProgGen:
                         acts.append({"a": "tick", "d": rng.choice(DELAYS)})
                         if rng.random() < 0.12:
                             acts[-1]["nested"] = True       # … followed by a start_component() of the component's own
+                        elif acts[-1]["d"] and rng.random() < 0.3:
+                            # the time is spent waiting - with a time limit - for something nobody publishes; the component
+                            # then carries on (what it, and everybody else, does afterwards is none the worse for it)
+                            acts[-1]["giveup"] = True
                     elif r < 1.0 - self.p_act_await:
                         self.n_td += 1
                         if rng.random() < 0.4:
@@ -369,7 +373,15 @@ class ProgGen:
             phases = ["start"]
         ph = rng.choice(phases)
         pos = rng.randint(0, len(spec[ph]))
-        spec[ph] = spec[ph][:pos] + [{"a": "fail", "e": rng.randrange(4)}] + spec[ph][pos:]
+        fault: dict[str, Any] = {"a": "fail", "e": rng.randrange(4)}
+        mine = [a for a in spec[ph][:pos] if a["a"] == "publish"]
+        if mine and rng.random() < 0.5:
+            # the component fails inside add_resource(): it publishes, together with a teardown callback, under a pair it
+            # has already taken itself - nothing of that call is registered, and its ResourceConflict is the failure
+            a = rng.choice(mine)
+            self.n_td += 1
+            fault["conflict"] = [a["ty"], a["name"], self.n_td]
+        spec[ph] = spec[ph][:pos] + [fault] + spec[ph][pos:]
 
     def build(self) -> dict[str, Any]:
         rng = self.rng
